@@ -59,6 +59,8 @@ Proof.
     by (apply (Z.mod_unique_pos _ _ (b * 8 + x)); lia).
   destruct ((2 <=? i) && (i <? 6))%bool eqn:U; [|reflexivity].
   apply Bool.andb_true_iff in U. destruct U as [U1 U2]. apply Z.leb_le in U1. apply Z.ltb_lt in U2. lia.
+Qed.
+
 (** ** Fokker-Planck step (damping/diffusion), model of FokkerPlanckMap (Model/FokkerPlanck.v),
     stencil arithmetic regenerated from the constructor on every run (Gen/Gen_FPStencil.v).
     All statements hold in every field [K], for every damping decrement [e1], every grid
